@@ -107,3 +107,35 @@ def period_consistency_spec(E, periods, direction, c):
 @form('xnan')
 def f_xnan(E, node):
     return xops.nan()
+
+
+# ------------------------------------------------------------------------------------------------
+# lemmas over minrun (pure logic, from the definition)
+# ------------------------------------------------------------------------------------------------
+from vf.lemmas import lemma    # noqa: E402
+
+
+@lemma('minrun_monotone')
+def minrun_monotone():
+    """q subset of q', m >= m'  ==>  minrun(q, m) subset of minrun(q', m')   (C06/C07: raising a threshold or the
+    minimum run length can only remove labels; C16: growing q keeps old bursts)"""
+    A = z3.Array('A', z3.IntSort(), z3.BoolSort())
+    B = z3.Array('B', z3.IntSort(), z3.BoolSort())
+    n, m, m2, i, k = z3.Ints('n m m2 i k')
+    sub = z3.ForAll([k], z3.Implies(z3.And(0 <= k, k < n, z3.Select(A, k)), z3.Select(B, k)))
+    # unfold the definition on the hypothesis side to get the witnesses, re-fold on the goal side
+    a0, c0 = z3.Ints('a0 c0')
+    hyp_window = z3.And(0 <= a0, a0 <= i, i < c0, c0 <= n, c0 - a0 >= m,
+                        z3.ForAll([k], z3.Implies(z3.And(a0 <= k, k < c0), z3.Select(A, k))))
+    k2 = z3.Int('k2')
+    goal_window = z3.And(0 <= a0, a0 <= i, i < c0, c0 <= n, c0 - a0 >= m2,
+                         z3.ForAll([k2], z3.Implies(z3.And(a0 <= k2, k2 < c0), z3.Select(B, k2))))
+    steps = [
+        ('same-window-works', [sub, m >= m2, 0 <= i, i < n, z3.Select(A, i), hyp_window],
+         z3.And(z3.Select(B, i), goal_window)),
+        # the definition really is "exists a window": the skolemised hypothesis above is what minrun_def gives
+        ('definition-shape', [minrun_def(A, n, m, i)],
+         z3.Exists([a0, c0], z3.And(z3.Select(A, i), hyp_window))),
+        ('fold', [z3.Select(B, i), 0 <= i, i < n, goal_window], minrun_def(B, n, m2, i)),
+    ]
+    return steps
